@@ -850,6 +850,7 @@ pub fn gen_program(r: &mut Rng, o: &ProgOpts) -> Program {
         end,
         ret_err: None,
         probe_cells: false,
+        pull_params: None,
     }
 }
 
@@ -862,6 +863,7 @@ pub fn simple_ok_program() -> Program {
         end: End::Implicit,
         ret_err: None,
         probe_cells: false,
+        pull_params: None,
     }
 }
 
